@@ -5,7 +5,7 @@ import argparse, json, os, subprocess, sys, shutil, threading, concurrent.future
 LOCK = threading.Lock()
 HERE = os.path.dirname(os.path.dirname(os.path.abspath(__file__)))
 ap = argparse.ArgumentParser()
-ap.add_argument('--checks', required=True)
+ap.add_argument('--checks', default='C01,C02,C03,C04,C05,C06,C07,C08,C09,C10,C11,C12,C13,C14,C15,C16,C17,C18,C19')
 ap.add_argument('--seeds', default='all')
 ap.add_argument('--jobs', type=int, default=4)
 ap.add_argument('--nproc', type=int, default=4)
@@ -23,8 +23,10 @@ def run(seed):
     try:
         subprocess.run(['git', '-C', wt, 'apply', os.path.join(HERE, 'seeded', seed, 'patch.diff')], check=True)
         for c in checks:
-            if a.own and not seed.startswith(c):
-                continue
+            if a.own:
+                meta = json.load(open(os.path.join(HERE, 'seeded', seed, 'meta.json')))
+                if c not in (meta.get('properties') or [meta['property']]):
+                    continue
             env = dict(os.environ, CCT_VERIF_REPO=wt, CCT_VERIF_OUT=out)
             p = subprocess.run([os.path.join(HERE, 'check'), c, '--tier', a.tier, '--nproc', str(a.nproc)], capture_output=True, text=True, env=env)
             lines = [l for l in p.stdout.splitlines() if l.startswith(('VIOLATION', '  why', 'INCONCLUSIVE', 'ENGINE-MISMATCH', 'HARNESS-ERROR', 'lemma')) and 'proved [' not in l or 'NOT proved' in l]
